@@ -229,10 +229,15 @@ func DrawOp(t *rapid.T, m *model.RIB, cfg Cfg, id uint64) *gen.Op {
 	}
 	keys := m.Keys()
 	deps := missingDeps(m)
-	intent := weighted(t, []int{35, 15, 25, 25}, "intent")
+	intent := weighted(t, []int{35, 15, 25, 15, 10}, "intent")
+	held := m.HeldIDs()
+	if intent == 4 && len(held) == 0 {
+		intent = 3
+	}
 	if intent == 1 && len(deps) == 0 {
 		intent = 0
 	}
+	var waitFor *gen.EntryKey // intent 4: the new operation refers to this missing entry
 	if intent == 2 && len(keys) == 0 {
 		intent = 0
 	}
@@ -263,6 +268,36 @@ func DrawOp(t *rapid.T, m *model.RIB, cfg Cfg, id uint64) *gen.Op {
 		o.Act = []string{gen.ADD, gen.REPLACE, gen.DELETE}[weighted(t, []int{30, 30, 40}, "act")]
 		if cfg.NoReplace && o.Act == gen.REPLACE {
 			o.Act = gen.ADD
+		}
+	case 4: // around a held operation: pull its own key from under it, or queue up behind the same missing entry
+		h := m.Held[held[rapid.IntRange(0, len(held)-1).Draw(t, "heldop")]]
+		miss := m.MissingRefs(h.NI, model.Payload(h.Op))
+		hk, hasKey := model.KeyOf(h.NI, h.Op)
+		if (len(miss) == 0 || pct(t, 40, "own-key")) && hasKey && allowed[hk.Kind] {
+			o.NI, o.Kind, o.Key = hk.NI, hk.Kind, hk.Key
+			o.Act = gen.ADD
+			if _, inst := m.Ent[hk]; inst && pct(t, 75, "pull") {
+				o.Act = gen.DELETE
+			}
+		} else if len(miss) > 0 {
+			d := miss[rapid.IntRange(0, len(miss)-1).Draw(t, "missing")]
+			waitFor = &d
+			o.NI, o.Act = d.NI, gen.ADD
+			if d.Kind == gen.NHG {
+				o.Kind = []string{gen.V4, gen.V6, gen.MPLS}[weighted(t, []int{60, 15, 25}, "topkind")]
+			} else {
+				o.Kind = gen.NHG
+			}
+			if !allowed[o.Kind] {
+				o.Kind = pick(t, kinds, "kind")
+				waitFor = nil
+			}
+			o.Key = pick(t, universe(o.Kind), "key")
+		} else {
+			o.Kind = pick(t, kinds, "kind")
+			o.NI = NIs[weighted(t, []int{50, 30, 20}, "ni")]
+			o.Act = gen.ADD
+			o.Key = pick(t, universe(o.Kind), "key")
 		}
 	default:
 		if len(kinds) == 5 {
@@ -303,6 +338,10 @@ func DrawOp(t *rapid.T, m *model.RIB, cfg Cfg, id uint64) *gen.Op {
 		} else {
 			o.Group = pick(t, IDs, "group")
 		}
+		if waitFor != nil && waitFor.Kind == gen.NHG {
+			o.GroupNI = ""
+			o.Group, _ = strconv.ParseUint(waitFor.Key, 10, 64)
+		}
 		if rich || pct(t, 15, "meta?") {
 			o.Meta = pick(t, MetaVals, "meta")
 		}
@@ -332,6 +371,11 @@ func DrawOp(t *rapid.T, m *model.RIB, cfg Cfg, id uint64) *gen.Op {
 				h.Weight = gen.U(pick(t, []uint64{0, 1, 2, 64, 1 << 40}, "weight"))
 			}
 			o.Hops = append(o.Hops, h)
+		}
+		if waitFor != nil && waitFor.Kind == gen.NH {
+			if idx, _ := strconv.ParseUint(waitFor.Key, 10, 64); !used[idx] {
+				o.Hops = append(o.Hops, gen.Hop{Index: idx})
+			}
 		}
 		if pct(t, cfg.DupHops, "duphop?") {
 			o.Hops = append(o.Hops, o.Hops[0])
